@@ -67,6 +67,15 @@ Proof.
   simpl. rewrite IH. replace (S k + j)%nat with (k + S j)%nat by lia. reflexivity.
 Qed.
 
+Lemma dec_retune_at st : d_at (dec_retune st) = d_at st.
+Proof.
+  unfold dec_retune.
+  destruct ((0 <? find_period (d_at st) true) && (0 <? find_period (d_at st) false) &&
+            (find_period (d_at st) true + find_period (d_at st) false <? 256));
+    [destruct (negb (find_period (d_at st) true =? d_data st) || negb (find_period (d_at st) false =? d_parity st))|];
+    reflexivity.
+Qed.
+
 (* ------------------------------------------------------------ the run *)
 
 Section Converge.
@@ -114,6 +123,9 @@ Proof. intros. unfold consistent, pbit; simpl. split; [reflexivity|lia]. Qed.
 Definition J (st : fecdec) : Prop :=
   0 < d_data st /\ 0 < d_parity st /\ d_size st = d_data st + d_parity st /\ d_size st <= 256 /\
   d_paws st = paws_of (d_size st) /\ at_wf (d_at st).
+
+Ltac solveJ := unfold J; simpl;
+  (split; [lia|split; [lia|split; [lia|split; [lia|split; [try reflexivity; try assumption|try assumption]]]]]).
 
 Definition Win (w0 : list pulse) (st : fecdec) (i : nat) : Prop :=
   at_window (d_at st) = lastn 258 (w0 ++ run_pulses d p s0 i).
@@ -165,7 +177,7 @@ Proof.
   - exists (dec_retune (set_at st (at_sample (d_at st) (pbit i) (s0 + Z.of_nat i)))), [].
     split; [|split].
     + rewrite (decode_tuning_step mk st (pk i)); [rewrite Hbit, Hseq; reflexivity|lia|rewrite Hseq; assumption|rewrite Hseq, Hflag; assumption].
-    + unfold dec_retune. simpl. repeat (destruct (_ : bool); simpl; try reflexivity).
+    + rewrite dec_retune_at. reflexivity.
     + left. split; reflexivity.
   - apply orb_false_iff in E as [Es Em].
     unfold dec_decode. destruct (blen (pk i) <? c_fecHeaderSize) eqn:El; [apply Z.ltb_lt in El; lia|].
@@ -188,8 +200,6 @@ Lemma retune_J st1 : J st1 -> Forall (consistent d p) (at_window (d_at st1)) ->
   (Adopted (dec_retune st1) \/ (cfg_same st1 (dec_retune st1) /\ d_should (dec_retune st1) = true)).
 Proof.
   intros (H1 & H2 & H3 & H4 & H5 & H6) Hcons.
-  assert (Hat : d_at (dec_retune st1) = d_at st1).
-  { unfold dec_retune. repeat (destruct (_ : bool); simpl; try reflexivity). }
   unfold dec_retune in *.
   destruct ((0 <? find_period (d_at st1) true) && (0 <? find_period (d_at st1) false) &&
             (find_period (d_at st1) true + find_period (d_at st1) false <? 256)) eqn:E.
@@ -199,13 +209,13 @@ Proof.
     pose proof (find_period_sound d p (d_at st1) false _ Hd Hp Hcons eq_refl E2) as F2.
     simpl in F1, F2. rewrite F1, F2 in *.
     destruct (negb (d =? d_data st1) || negb (p =? d_parity st1)) eqn:En.
-    + split; [unfold J; simpl; repeat split; try lia; assumption|].
+    + split; [solveJ|].
       left. unfold Adopted, has_cfg; simpl. repeat split; reflexivity.
     + apply orb_false_iff in En as [Ea Eb]. apply negb_false_iff in Ea. apply negb_false_iff in Eb.
       apply Z.eqb_eq in Ea. apply Z.eqb_eq in Eb.
-      split; [unfold J; simpl; repeat split; try lia; assumption|].
+      split; [solveJ|].
       left. unfold Adopted, has_cfg; simpl. rewrite H5, H3, <- Ea, <- Eb. repeat split; reflexivity.
-  - split; [unfold J; simpl; repeat split; try lia; assumption|].
+  - split; [solveJ|].
     right. unfold cfg_same; simpl. repeat split; reflexivity.
 Qed.
 
@@ -228,7 +238,7 @@ Proof.
   destruct Hcase as [(Etrue & Hst')|(Efalse & Hsame & Hsh')].
   - (* tuning step *)
     set (st1 := set_at st (at_sample (d_at st) (pbit i) (s0 + Z.of_nat i))) in *.
-    assert (HJ1 : J st1) by (unfold J, st1; simpl; rewrite <- Hat; repeat split; assumption).
+    assert (HJ1 : J st1) by (unfold st1; unfold J; simpl; rewrite <- Hat; tauto).
     assert (Hc1 : Forall (consistent d p) (at_window (d_at st1))).
     { unfold st1; simpl. rewrite <- Hat. apply (win_consistent w0 st' (S i) Hw0 ltac:(lia) Hwin'). }
     destruct (retune_J st1 HJ1 Hc1) as (HJ' & Hmode). rewrite <- Hst' in *.
@@ -245,12 +255,227 @@ Proof.
   - (* stored *)
     apply orb_false_iff in Efalse as [Es Em].
     assert (HJ' : J st').
-    { destruct Hsame as (c1 & c2 & c3 & c4). unfold J. rewrite c1, c2, c3, c4. repeat split; assumption. }
+    { destruct Hsame as (c1 & c2 & c3 & c4). unfold J. rewrite c1, c2, c3, c4. tauto. }
     split; [exact HJ'|]. split; [exact Hwin'|]. split; [|split].
     + intros ((c1 & c2 & c3 & c4) & _). destruct Hsame as (e1 & e2 & e3 & e4).
       unfold Adopted, has_cfg. rewrite e1, e2, e3, e4. repeat split; assumption.
     + intros Ht. rewrite Ht in Es. discriminate.
-    + intros _. left. repeat split; assumption.
+    + intros _. left. split; [exact Em|split; [exact Hsame|exact Hsh']].
+Qed.
+
+(* ---- several packets ---- *)
+
+Lemma pks_S i n : pks i (S n) = pk i :: pks (S i) n.
+Proof. reflexivity. Qed.
+
+Lemma run_dec_cons st x t :
+  run_dec mk st (x :: t) =
+  match dec_decode mk st x with
+  | Panic w => Panic w
+  | Ok (st1, out) => match run_dec mk st1 t with Panic w => Panic w | Ok (st2, outs) => Ok (st2, out :: outs) end
+  end.
+Proof. reflexivity. Qed.
+
+Lemma cfg_same_trans a b c : cfg_same a b -> cfg_same b c -> cfg_same a c.
+Proof. unfold cfg_same. intros (a1 & a2 & a3 & a4) (b1 & b2 & b3 & b4). repeat split; congruence. Qed.
+
+Lemma type_mismatch_cfg a b s f : cfg_same a b -> type_mismatch b s f = type_mismatch a s f.
+Proof. intros (c1 & _ & c3 & _). unfold type_mismatch. rewrite c1, c3. reflexivity. Qed.
+
+Section Phases.
+Variable w0 : list pulse.
+Hypothesis Hw0 : Forall (consistent d p) w0.
+Hypothesis Hl0 : (length w0 <= 258)%nat.
+
+(* once adopted, always adopted *)
+Lemma run_adopted n : forall i st,
+  J st -> Win w0 st i -> Adopted st -> (i + n <= N)%nat ->
+  exists st' outs, run_dec mk st (pks i n) = Ok (st', outs) /\ J st' /\ Win w0 st' (i + n) /\ Adopted st'.
+Proof.
+  induction n as [|n IH]; intros i st HJ Hw Ha Hn.
+  - exists st, []. rewrite Nat.add_0_r. simpl. auto.
+  - destruct (step_inv w0 st i HJ Hw0 Hl0 Hw ltac:(lia)) as (st1 & out & He & HJ1 & Hw1 & Had & _ & _).
+    destruct (IH (S i) st1 HJ1 Hw1 (Had Ha) ltac:(lia)) as (st2 & outs & He2 & HJ2 & Hw2 & Ha2).
+    exists st2, (out :: outs). rewrite pks_S, run_dec_cons, He, He2.
+    replace (i + S n)%nat with (S i + n)%nat by lia. auto.
+Qed.
+
+(* while tuning: adopted, or still tuning with the same ratio *)
+Lemma run_tuning n : forall i st,
+  J st -> Win w0 st i -> (Adopted st \/ d_should st = true) -> (i + n <= N)%nat ->
+  exists st' outs, run_dec mk st (pks i n) = Ok (st', outs) /\ J st' /\ Win w0 st' (i + n) /\
+    (Adopted st' \/ d_should st' = true).
+Proof.
+  induction n as [|n IH]; intros i st HJ Hw Hm Hn.
+  - exists st, []. rewrite Nat.add_0_r. simpl. auto.
+  - destruct (step_inv w0 st i HJ Hw0 Hl0 Hw ltac:(lia)) as (st1 & out & He & HJ1 & Hw1 & Had & Htu & _).
+    assert (Hm1 : Adopted st1 \/ d_should st1 = true).
+    { destruct Hm as [Ha|Ht]; [left; auto|]. destruct (Htu Ht) as [Ha|(_ & Hs)]; auto. }
+    destruct (IH (S i) st1 HJ1 Hw1 Hm1 ltac:(lia)) as (st2 & outs & He2 & HJ2 & Hw2 & Hm2).
+    exists st2, (out :: outs). rewrite pks_S, run_dec_cons, He, He2.
+    replace (i + S n)%nat with (S i + n)%nat by lia. auto.
+Qed.
+
+(* flag clear, and the packet k steps ahead fails the type test of the present ratio: after it
+   (at the latest) the decoder is tuning or has adopted *)
+Lemma run_until_mismatch k : forall i st,
+  J st -> Win w0 st i -> d_should st = false ->
+  type_mismatch st (s0 + Z.of_nat (i + k)) (sender_flag d p (s0 + Z.of_nat (i + k))) = true ->
+  (i + k < N)%nat ->
+  exists st' outs, run_dec mk st (pks i (S k)) = Ok (st', outs) /\ J st' /\ Win w0 st' (i + S k) /\
+    (Adopted st' \/ d_should st' = true).
+Proof.
+  induction k as [|k IH]; intros i st HJ Hw Hsf Hmis Hn.
+  - rewrite Nat.add_0_r in Hmis.
+    destruct (step_inv w0 st i HJ Hw0 Hl0 Hw ltac:(lia)) as (st1 & out & He & HJ1 & Hw1 & _ & _ & Hq).
+    exists st1, [out]. rewrite pks_S, run_dec_cons, He. simpl.
+    replace (i + 1)%nat with (S i) by lia. split; [reflexivity|]. split; [assumption|]. split; [assumption|].
+    destruct (Hq Hsf) as [(Hno & _)|(_ & [Ha|(_ & Hs)])]; [congruence|auto|auto].
+  - destruct (step_inv w0 st i HJ Hw0 Hl0 Hw ltac:(lia)) as (st1 & out & He & HJ1 & Hw1 & _ & _ & Hq).
+    destruct (Hq Hsf) as [(Hno & Hsame & Hs1)|(_ & Hm1)].
+    + (* stored; the ratio is unchanged, so is the verdict on the packet ahead *)
+      destruct (IH (S i) st1 HJ1 Hw1 Hs1) as (st2 & outs & He2 & HJ2 & Hw2 & Hm2).
+      * rewrite (type_mismatch_cfg st st1 _ _ Hsame). replace (S i + k)%nat with (i + S k)%nat by lia. exact Hmis.
+      * lia.
+      * exists st2, (out :: outs). rewrite pks_S, run_dec_cons, He, He2.
+        replace (i + S (S k))%nat with (S i + S k)%nat by lia. auto.
+    + (* an earlier packet already failed the test *)
+      assert (Hm1' : Adopted st1 \/ d_should st1 = true) by (destruct Hm1 as [Ha|(_ & Hs)]; auto).
+      destruct (run_tuning (S k) (S i) st1 HJ1 Hw1 Hm1' ltac:(lia)) as (st2 & outs & He2 & HJ2 & Hw2 & Hm2).
+      exists st2, (out :: outs). rewrite pks_S, run_dec_cons, He, He2.
+      replace (i + S (S k))%nat with (S i + S k)%nat by lia. auto.
+Qed.
+
+(* the window after packet j >= 257 is the last 258 samples of the run itself *)
+Lemma window_clean st j :
+  Win w0 st (S j) -> (257 <= j)%nat ->
+  at_window (d_at st) = run_pulses d p (s0 + Z.of_nat (j - 257)) 258.
+Proof.
+  intros Hw Hj. rewrite Hw. unfold run_pulses at 1. unfold rw.
+  rewrite lastn_app_long by (rewrite map_length, seq_length; lia).
+  unfold lastn. rewrite map_length, seq_length, skipn_map_seq.
+  replace (0 + (S j - 258))%nat with (j - 257)%nat by lia. replace (S j - (S j - 258))%nat with 258%nat by lia.
+  unfold run_pulses, rw. rewrite (seq_add_map (j - 257) 258), map_map.
+  apply map_ext. intros k. unfold rp.
+  replace (s0 + Z.of_nat (j - 257) + Z.of_nat k) with (s0 + Z.of_nat (j - 257 + k)) by lia. reflexivity.
+Qed.
+
+(* tuning, and packet j completes an aligned clean window: d/p is adopted *)
+Lemma tuning_adopts st j :
+  J st -> Win w0 st j -> d_should st = true -> (j < N)%nat -> (257 <= j)%nat ->
+  (s0 + Z.of_nat (j - 257)) mod ss = ss - 1 ->
+  exists st' out, dec_decode mk st (pk j) = Ok (st', out) /\ J st' /\ Win w0 st' (S j) /\ Adopted st'.
+Proof.
+  intros HJ Hw Hs Hj H257 Hal.
+  destruct (step_inv w0 st j HJ Hw0 Hl0 Hw Hj) as (st' & out & He & HJ' & Hw' & _ & _ & _).
+  exists st', out. split; [exact He|]. split; [exact HJ'|]. split; [exact Hw'|].
+  destruct (step st j HJ Hj) as (st'' & out'' & He'' & Hat & Hcase). rewrite He in He''. inversion He''; subst st'' out''.
+  destruct Hcase as [(_ & Hst')|(Ef & _)]; [|rewrite Hs in Ef; discriminate].
+  set (st1 := set_at st (at_sample (d_at st) (pbit j) (s0 + Z.of_nat j))) in *.
+  pose proof HJ as (H1 & H2 & H3 & H4 & H5 & H6).
+  assert (Hwin1 : at_window (d_at st1) = run_pulses d p (s0 + Z.of_nat (j - 257)) 258).
+  { unfold st1; simpl. rewrite <- Hat. apply (window_clean st' j Hw' H257). }
+  destruct (retune_complete d p (s0 + Z.of_nat (j - 257)) 258 st1 Hd Hp Hss ltac:(lia) Hal ltac:(lia) ltac:(lia) Hwin1 H3 H5)
+    as (Hcfg & Hsh).
+  rewrite Hst'. split; assumption.
+Qed.
+
+(* an aligned index within d+p of any m *)
+Lemma aligned_index m : (257 <= m)%nat ->
+  exists j, (m <= j < m + Z.to_nat ss)%nat /\ (s0 + Z.of_nat (j - 257)) mod ss = ss - 1.
+Proof.
+  intros Hm. set (x := s0 + Z.of_nat (m - 257)).
+  pose proof (Z.div_mod x ss ltac:(lia)) as Hdm. pose proof (Z.mod_pos_bound x ss ltac:(lia)) as Hr.
+  remember (x mod ss) as r eqn:Er. remember (x / ss) as q eqn:Eq. clear Er Eq.
+  exists (m + Z.to_nat (ss - 1 - r))%nat. split; [lia|].
+  replace (s0 + Z.of_nat (m + Z.to_nat (ss - 1 - r) - 257)) with (ss * q + (ss - 1)) by (unfold x in Hdm; lia).
+  apply mod_mult_shift; lia.
+Qed.
+
+(* from any point up to index d+p+256 with the decoder tuning or adopted: adopted at the end *)
+Lemma finish i st :
+  J st -> Win w0 st i -> (Adopted st \/ d_should st = true) ->
+  (Z.of_nat i <= ss + 256) -> N = Z.to_nat (258 + 2 * ss) ->
+  exists st' outs, run_dec mk st (pks i (N - i)) = Ok (st', outs) /\ J st' /\ Adopted st'.
+Proof.
+  intros HJ Hw Hm Hi HN'.
+  destruct (aligned_index (Nat.max i 257) ltac:(lia)) as (j & Hj & Hal).
+  assert (HjN : (j < N)%nat) by lia.
+  (* packets i .. j-1 *)
+  destruct (run_tuning (j - i) i st HJ Hw Hm ltac:(lia)) as (st1 & outs1 & He1 & HJ1 & Hw1 & Hm1).
+  replace (i + (j - i))%nat with j in Hw1 by lia.
+  (* packet j *)
+  assert (Hstep : exists st2 out2, dec_decode mk st1 (pk j) = Ok (st2, out2) /\ J st2 /\ Win w0 st2 (S j) /\ Adopted st2).
+  { destruct Hm1 as [Ha|Ht].
+    - destruct (step_inv w0 st1 j HJ1 Hw0 Hl0 Hw1 HjN) as (st2 & out2 & He2 & HJ2 & Hw2 & Had & _ & _).
+      exists st2, out2. auto.
+    - apply (tuning_adopts st1 j HJ1 Hw1 Ht HjN ltac:(lia) Hal). }
+  destruct Hstep as (st2 & out2 & He2 & HJ2 & Hw2 & Ha2).
+  (* the rest *)
+  destruct (run_adopted (N - S j) (S j) st2 HJ2 Hw2 Ha2 ltac:(lia)) as (st3 & outs3 & He3 & HJ3 & _ & Ha3).
+  exists st3, (outs1 ++ out2 :: outs3). split; [|split; assumption].
+  replace (N - i)%nat with ((j - i) + S (N - S j))%nat by lia.
+  unfold pks. rewrite seq_app, map_app. fold (pks i (j - i)).
+  replace (i + (j - i))%nat with j by lia. fold (pks j (S (N - S j))). rewrite pks_S.
+  clear - He1 He2 He3.
+  revert st He1. generalize (pks i (j - i)) as l. intros l. revert outs1.
+  induction l as [|x l IH]; intros outs1 st He1.
+  - simpl in He1. inversion He1; subst. simpl app. rewrite run_dec_cons, He2, He3. reflexivity.
+  - rewrite run_dec_cons in He1. simpl app. rewrite run_dec_cons.
+    destruct (dec_decode mk st x) as [[sta outa]|w]; [|discriminate].
+    destruct (run_dec mk sta l) as [[stb outsb]|w] eqn:Er; [|discriminate].
+    inversion He1; subst. rewrite (IH outsb sta Er). reflexivity.
+Qed.
+
+End Phases.
+
+(* THE BOUND *)
+Theorem converges st :
+  N = Z.to_nat (258 + 2 * ss) ->
+  J st -> Forall (consistent d p) (at_window (d_at st)) ->
+  exists st' outs, run_dec mk st (pks 0 N) = Ok (st', outs) /\ has_cfg st' d p /\ d_should st' = false.
+Proof.
+  intros HN' HJ Hcons.
+  set (w0 := at_window (d_at st)).
+  assert (Hl0 : (length w0 <= 258)%nat).
+  { unfold w0. rewrite at_window_len. destruct HJ as (_ & _ & _ & _ & _ & (_ & [H|H])); lia. }
+  assert (Hw : Win w0 st 0).
+  { unfold Win. unfold run_pulses, rw. simpl. rewrite app_nil_r. rewrite lastn_short by assumption. reflexivity. }
+  assert (Hfin : forall i st1, J st1 -> Win w0 st1 i -> (Adopted st1 \/ d_should st1 = true) -> Z.of_nat i <= ss + 256 ->
+            forall outs0, run_dec mk st (pks 0 i) = Ok (st1, outs0) ->
+            exists st' outs, run_dec mk st (pks 0 N) = Ok (st', outs) /\ has_cfg st' d p /\ d_should st' = false).
+  { intros i st1 HJ1 Hw1 Hm1 Hi outs0 He0.
+    destruct (finish w0 Hcons Hl0 i st1 HJ1 Hw1 Hm1 Hi HN') as (st' & outs & He & _ & (Hc & Hs)).
+    exists st', (outs0 ++ outs). split; [|split; assumption].
+    replace N with (i + (N - i))%nat by lia. unfold pks. rewrite seq_app, map_app. simpl plus.
+    fold (pks 0 i). fold (pks i (N - i)).
+    clear - He0 He. revert st outs0 He0. generalize (pks 0 i) as l.
+    induction l as [|x l IH]; intros st outs0 He0.
+    - simpl in He0. inversion He0; subst. exact He.
+    - rewrite run_dec_cons in He0. simpl app. rewrite run_dec_cons.
+      destruct (dec_decode mk st x) as [[sta outa]|w]; [|discriminate].
+      destruct (run_dec mk sta l) as [[stb outsb]|w] eqn:Er; [|discriminate].
+      inversion He0; subst. rewrite (IH sta outsb Er). reflexivity. }
+  destruct (d_should st) eqn:Es.
+  - (* already tuning *)
+    apply (Hfin 0%nat st HJ Hw (or_intror Es) ltac:(lia) []). reflexivity.
+  - destruct (Z.eq_dec d (d_data st)) as [Ed|Ed]; [destruct (Z.eq_dec p (d_parity st)) as [Ep|Ep]|].
+    + (* the ratio already matches *)
+      assert (Ha : Adopted st).
+      { destruct HJ as (_ & _ & H3 & _ & H5 & _). unfold Adopted, has_cfg. rewrite H5, H3, <- Ed, <- Ep. auto. }
+      apply (Hfin 0%nat st HJ Hw (or_introl Ha) ltac:(lia) []). reflexivity.
+    + pose proof HJ as (H1 & H2 & H3 & H4 & H5 & H6).
+      destruct (mismatch_detected st d p s0 Hd Hp H1 H2 H3 (or_intror Ep) Hs0) as (s & Hr & Hmis).
+      destruct (run_until_mismatch w0 Hcons Hl0 (Z.to_nat (s - s0)) 0 st HJ Hw Es) as (st1 & outs1 & He1 & HJ1 & Hw1 & Hm1).
+      * simpl plus. rewrite Z2Nat.id by lia. replace (s0 + (s - s0)) with s by lia. exact Hmis.
+      * lia.
+      * apply (Hfin (0 + S (Z.to_nat (s - s0)))%nat st1 HJ1 Hw1 Hm1 ltac:(lia) outs1 He1).
+    + pose proof HJ as (H1 & H2 & H3 & H4 & H5 & H6).
+      destruct (mismatch_detected st d p s0 Hd Hp H1 H2 H3 (or_introl Ed) Hs0) as (s & Hr & Hmis).
+      destruct (run_until_mismatch w0 Hcons Hl0 (Z.to_nat (s - s0)) 0 st HJ Hw Es) as (st1 & outs1 & He1 & HJ1 & Hw1 & Hm1).
+      * simpl plus. rewrite Z2Nat.id by lia. replace (s0 + (s - s0)) with s by lia. exact Hmis.
+      * lia.
+      * apply (Hfin (0 + S (Z.to_nat (s - s0)))%nat st1 HJ1 Hw1 Hm1 ltac:(lia) outs1 He1).
 Qed.
 
 End Converge.
